@@ -2,7 +2,7 @@
    Property theorems only; proofs live in Proofs/InputsP.v, Proofs/AcceptsP.v, Proofs/DefaultsP.v. *)
 From Coq Require Import List String Ascii ZArith Bool.
 From AC Require Import Base.Json Base.Strs Gql.InSchema Gql.InCoerce Model.Names Model.Defaults Model.Inputs
-  Py.PyEval Proofs.InputsP Proofs.AcceptsP Proofs.DefaultsP Proofs.ValidateP Proofs.ByNameP.
+  Py.PyEval Proofs.InputsP Proofs.FreshP Proofs.AcceptsP Proofs.DefaultsP Proofs.ValidateP Proofs.ByNameP.
 Import ListNotations.
 Local Open Scope string_scope.
 
@@ -21,15 +21,15 @@ Example C06_nullable_items_under_nonnull_list :
 Proof. vm_compute. auto. Qed.
 
 (* ================= required iff non-null without schema default; wire name kept ================= *)
-Theorem C06_required_iff : forall s cs snake f,
-  rhs_default (p_value (gen_field s cs snake f)) = DRequired <->
+Theorem C06_required_iff : forall s cs snake fs f,
+  rhs_default (p_value (gen_field s cs snake fs f)) = DRequired <->
   (is_nonnull (i_type f) = true /\ i_default f = None).
 Proof. exact required_iff. Qed.
 Print Assumptions C06_required_iff.
 
-Theorem C06_wire_name_kept : forall s cs snake f,
-  match rhs_alias (p_value (gen_field s cs snake f)) with
-  | Some a => a | None => p_name (gen_field s cs snake f) end = i_name f.
+Theorem C06_wire_name_kept : forall s cs snake fs f,
+  match rhs_alias (p_value (gen_field s cs snake fs f)) with
+  | Some a => a | None => p_name (gen_field s cs snake fs f) end = i_name f.
 Proof. exact gen_field_wire. Qed.
 Print Assumptions C06_wire_name_kept.
 
@@ -75,14 +75,35 @@ Example C06_nullable_item_accepted :
   accepts 5 (env_of S21 [] true) (fst (parse_input_field_type S21 [] (TNonNull (TNamed "In")) true)) V21 = true.
 Proof. vm_compute. auto. Qed.
 
-(* what still refutes the full statement: colliding field names (F18) *)
+(* regression of the former F18 witness (fix bec4417): fooBar / foo_bar stay two fields, the later one is
+   foo_bar_ with alias fooBar; the guard holds and the value is accepted *)
 Definition S18 : schema :=
   [("In", DInput [{| i_name := "foo_bar"; i_type := TNamed "String"; i_default := None |};
                   {| i_name := "fooBar"; i_type := TNamed "Int"; i_default := None |}])].
+Example C06_collision_kept_apart :
+  schema_ok true S18 = true /\
+  map p_name (c_fields (gen_class S18 [] true "In" [{| i_name := "foo_bar"; i_type := TNamed "String"; i_default := None |};
+                                                     {| i_name := "fooBar"; i_type := TNamed "Int"; i_default := None |}]))
+    = ["foo_bar"; "foo_bar_"] /\
+  accepts 5 (env_of S18 [] true) (fst (parse_input_field_type S18 [] (TNonNull (TNamed "In")) true))
+          (JObj [("foo_bar", JStr "x")]) = true.
+Proof. vm_compute. auto. Qed.
+
+(* Python names of one input type are pairwise distinct by construction (the de-duplication loop) *)
+Theorem C06_python_names_distinct : forall snake fs, NoDup (map i_name fs) ->
+  NoDup (map (fun f => fname snake fs (i_name f)) fs).
+Proof. exact fname_nodup. Qed.
+Print Assumptions C06_python_names_distinct.
+
+(* what still refutes the full statement — the rest of F18: the Python name of one field is the GraphQL name of
+   ANOTHER field (class -> class_, next to a field class_), so populate_by_name reads the other field's value *)
+Definition S18b : schema :=
+  [("In", DInput [{| i_name := "class"; i_type := TNamed "Int"; i_default := None |};
+                  {| i_name := "class_"; i_type := TNamed "String"; i_default := None |}])].
 Theorem C06_accepts_full_refuted : ~ C06_accepts_full.
 Proof.
-  intro H. specialize (H S18 [] true 5 (TNonNull (TNamed "In")) (JObj [("foo_bar", JStr "x")])
-                         (CObj [("foo_bar", CStr "x")]) eq_refl).
+  intro H. specialize (H S18b [] true 5 (TNonNull (TNamed "In")) (JObj [("class_", JStr "x")])
+                         (CObj [("class_", CStr "x")]) eq_refl).
   vm_compute in H. discriminate.
 Qed.
 Print Assumptions C06_accepts_full_refuted.
@@ -91,7 +112,7 @@ Print Assumptions C06_accepts_full_refuted.
 Theorem C06_refuses_missing_required : forall s cs snake nm fs f kv n,
   kind_of s nm = KInput fs -> names_ok_fields snake fs = true -> In f fs ->
   is_nonnull (i_type f) = true -> i_default f = None ->
-  jlookup (i_name f) kv = None -> jlookup (py_name snake (i_name f)) kv = None ->
+  jlookup (i_name f) kv = None -> jlookup (fname snake fs (i_name f)) kv = None ->
   accepts n (env_of s cs snake) (AClass nm) (JObj kv) = false.
 Proof. exact refuses_missing_required. Qed.
 Print Assumptions C06_refuses_missing_required.
@@ -148,10 +169,11 @@ Proof.
 Qed.
 
 (* ================= defaults ================= *)
-Definition C06_default_full : Prop := forall s cs snake f lit n cv k,
+Definition C06_default_full : Prop := forall s cs snake fs f lit n cv k,
   i_default f = Some lit -> coerced_default n s (i_type f) lit = Some cv -> n < k ->
-  exists b v, default_body (rhs_default (p_value (gen_field s cs snake f))) = Some b /\
-              eval k (env_of s cs snake) b = Ok v /\ dump v = Some (json_of_cvalue cv).
+  exists b v jd, default_body (rhs_default (p_value (gen_field s cs snake fs f))) = Some b /\
+                 eval k (env_of s cs snake) b = Ok v /\ dump v = Some jd /\
+                 strip_nulls jd = strip_nulls (json_of_cvalue cv).
 
 (* proved for literals in good_default, by induction on the literal, at every fuel above the one the coercion
    succeeds with: scalars of the type's own kind, enum values (keyword-named included), null, (nested) lists of
@@ -159,10 +181,10 @@ Definition C06_default_full : Prop := forall s cs snake f lit n cv k,
    (good_value: enums, lists, nested objects inside), alone or as items of (nested) list defaults.
    schema_ok (no colliding field names, F18) is needed for the object shapes only. *)
 Theorem C06_default_roundtrip_partial : forall s cs snake, schema_ok snake s = true ->
-  forall f lit n cv k,
-  i_default f = Some lit -> good_default s lit (i_type f) = true ->
+  forall fs f lit n cv k,
+  emitted_default s f = Some lit -> good_default s lit (i_type f) = true ->
   coerced_default n s (i_type f) lit = Some cv -> n < k ->
-  exists b v, default_body (rhs_default (p_value (gen_field s cs snake f))) = Some b /\
+  exists b v, default_body (rhs_default (p_value (gen_field s cs snake fs f))) = Some b /\
               eval k (env_of s cs snake) b = Ok v /\ dump v = Some (json_of_cvalue cv).
 Proof. exact default_roundtrip. Qed.
 Print Assumptions C06_default_roundtrip_partial.
@@ -171,10 +193,10 @@ Print Assumptions C06_default_roundtrip_partial.
    proved shape): the instance equals the coerced schema default modulo absent == null (strip_nulls removes
    null-valued object keys on both sides) — what the server sees.  Narrows the guard of the exact theorem. *)
 Theorem C06_default_roundtrip_modulo_null : forall s cs snake, schema_ok snake s = true ->
-  forall f lit n cv k,
-  i_default f = Some lit -> good_default_w s lit (i_type f) = true ->
+  forall fs f lit n cv k,
+  emitted_default s f = Some lit -> good_default_w s lit (i_type f) = true ->
   coerced_default n s (i_type f) lit = Some cv -> n < k ->
-  exists b v jd, default_body (rhs_default (p_value (gen_field s cs snake f))) = Some b /\
+  exists b v jd, default_body (rhs_default (p_value (gen_field s cs snake fs f))) = Some b /\
                  eval k (env_of s cs snake) b = Ok v /\ dump v = Some jd /\
                  strip_nulls jd = strip_nulls (json_of_cvalue cv).
 Proof. exact default_roundtrip_modulo_null. Qed.
@@ -223,7 +245,7 @@ Definition SD : schema :=
 Definition fld (t : gtype) (d : cvalue) : ifdef := {| i_name := "f"; i_type := t; i_default := Some d |}.
 Definition EV (f : ifdef) : option (res pyval) :=
   option_map (eval 9 (env_of (SD ++ [("In", DInput [f])])%list [] true))
-             (default_body (rhs_default (p_value (gen_field (SD ++ [("In", DInput [f])])%list [] true f)))).
+             (default_body (rhs_default (p_value (gen_field (SD ++ [("In", DInput [f])])%list [] true [f] f)))).
 Definition CD (f : ifdef) : option cvalue :=
   match i_default f with Some d => coerced_default 9 (SD ++ [("In", DInput [f])])%list (i_type f) d | None => None end.
 
@@ -258,23 +280,48 @@ Example C06_default_kw_enum_ok :
   good_default SD (CEnum "class") (TNamed "Kind") = true.
 Proof. vm_compute. auto. Qed.
 
-(* a single value for a list type / an Int literal for ID: emitted uncoerced *)
-Theorem C06_default_refuted_single_item :
+(* regression of the former F9d witnesses (fix e1f804e): the literal is given the shape of its type before it is
+   emitted — [7] and "5" — and is then inside good_default; the coerced default is unchanged by the reshaping *)
+Example C06_default_single_item_ok :
   let f := fld (TList (TNamed "Int")) (CInt 7) in
-  CD f = Some (CList [CInt 7]) /\ EV f = Some (Ok (VInt 7)).
+  emitted_default SD f = Some (CList [CInt 7]) /\ good_default SD (CList [CInt 7]) (TList (TNamed "Int")) = true /\
+  CD f = Some (CList [CInt 7]) /\ coerced_default 9 SD (TList (TNamed "Int")) (CList [CInt 7]) = CD f /\
+  EV f = Some (Ok (VList [VInt 7])).
 Proof. vm_compute. auto. Qed.
 
-Theorem C06_default_refuted_int_id :
+Example C06_default_int_id_ok :
   let f := fld (TNamed "ID") (CInt 5) in
-  CD f = Some (CStr "5") /\ EV f = Some (Ok (VInt 5)).
+  emitted_default SD f = Some (CStr "5") /\ good_default SD (CStr "5") (TNamed "ID") = true /\
+  CD f = Some (CStr "5") /\ EV f = Some (Ok (VStr "5")).
 Proof. vm_compute. auto. Qed.
 
+Example C06_default_scalar_in_object_ok :
+  let f := fld (TNamed "Sub") (CObj [("s", CStr "q")]) in
+  emitted_default SD f = Some (CObj [("s", CList [CStr "q"])]) /\
+  good_default_w SD (CObj [("s", CList [CStr "q"])]) (TNamed "Sub") = true /\
+  CD f = Some (CObj [("n", CInt 3); ("s", CList [CStr "q"])]).
+Proof. vm_compute. auto. Qed.
+
+(* literals of a proved object-free shape are left alone by the reshaping *)
+Theorem C06_reshaping_identity_on_good : forall s lit t, good_default s lit t = true -> no_obj lit = true ->
+  coerce_lit s lit t = lit.
+Proof. exact coerce_lit_simple. Qed.
+Print Assumptions C06_reshaping_identity_on_good.
+
+(* what still refutes the full statement (modulo absent == null): the cross-read rest of F18 inside an object default *)
+Definition SDb : schema :=
+  [("Sub", DInput [{| i_name := "class"; i_type := TNamed "Int"; i_default := None |};
+                   {| i_name := "class_"; i_type := TNamed "Int"; i_default := None |}]);
+   ("In", DInput [{| i_name := "f"; i_type := TNamed "Sub"; i_default := Some (CObj [("class_", CInt 1)]) |}])].
 Theorem C06_default_full_refuted : ~ C06_default_full.
 Proof.
   intro H.
-  destruct (H (SD ++ [("In", DInput [fld (TNamed "ID") (CInt 5)])])%list [] true (fld (TNamed "ID") (CInt 5))
-              (CInt 5) 9 (CStr "5") 10 eq_refl eq_refl ltac:(repeat constructor)) as [b [v [H1 [H2 H3]]]].
-  vm_compute in H1. inversion H1; subst b. vm_compute in H2. inversion H2; subst v. vm_compute in H3. discriminate.
+  destruct (H SDb [] true [{| i_name := "f"; i_type := TNamed "Sub"; i_default := Some (CObj [("class_", CInt 1)]) |}]
+              {| i_name := "f"; i_type := TNamed "Sub"; i_default := Some (CObj [("class_", CInt 1)]) |}
+              (CObj [("class_", CInt 1)]) 9 (CObj [("class_", CInt 1)]) 10 eq_refl eq_refl ltac:(repeat constructor))
+    as [b [v [jd [H1 [H2 [H3 H4]]]]]].
+  vm_compute in H1. inversion H1; subst b. vm_compute in H2. inversion H2; subst v.
+  vm_compute in H3. inversion H3; subst jd. vm_compute in H4. discriminate.
 Qed.
 Print Assumptions C06_default_full_refuted.
 
